@@ -33,15 +33,25 @@ Lemma quantizelinear_19_refuted :
 Proof. vm_compute. repeat split; reflexivity. Qed.
 
 (* ---------------------------------------------------------------- re-stamped nodes stay valid *)
-Lemma std_quiet : forall fx op, q_std op = true -> forall k n, std_adapt fx op k n = ANone.
+Lemma std_quiet : forall fx lo op, q_from lo op = true -> forall k n, lo <= k -> std_adapt fx op k n = ANone.
 Proof.
-  intros fx op H k n. unfold std_adapt, adapt_of.
+  intros fx lo op H k n Hk. unfold std_adapt, adapt_of.
   change (existsb (key_is op k) registry_keys) with (adapted_at registry_keys op k).
-  now rewrite (no_adapter_adapted registry_keys op k H).
+  now rewrite (no_adapter_from_adapted registry_keys lo op k H Hk).
+Qed.
+
+Lemma q_std_from : forall lo op, q_std op = true -> q_from lo op = true.
+Proof.
+  intros lo op H. unfold q_std, no_adapter in H. unfold q_from, no_adapter_from. apply negb_true_iff in H. apply negb_true_iff.
+  apply not_true_iff_false. intros Hx. apply existsb_exists in Hx as ([[[d o] v] up] & Hin & E).
+  apply andb_true_iff in E as [E Eup]. apply andb_true_iff in E as [E _].
+  assert (C : existsb (fun key => let '(d, o, _, up) := key in String.eqb d "" && String.eqb o op && up) registry_keys = true).
+  { apply existsb_exists. exists (d, o, v, up). split; [exact Hin|]. now rewrite E, Eup. }
+  congruence.
 Qed.
 
 Theorem restamped_valid : forall n n' info s t,
-  strip n' = strip n -> q_std (n_op n) = true -> clear_of schema_exceptions (n_op n) s t = true -> s <= t ->
+  strip n' = strip n -> q_from s (n_op n) = true -> clear_of schema_exceptions (n_op n) s t = true -> s <= t ->
   valid_at schema_table (n_op n) s (vnode_of n info) = true ->
   valid_at schema_table (n_op n') t (vnode_of n' info) = true.
 Proof.
@@ -60,39 +70,45 @@ Proof.
   - apply IH. cbn in H. now injection H.
 Qed.
 
+Lemma forallb_at_vergeb : forall s l, forallb (at_version s) l = true -> forallb (vergeb s) l = true.
+Proof.
+  intros s l H. apply forallb_forall. intros x Hx. rewrite forallb_forall in H. apply at_version_vergeb, H, Hx.
+Qed.
+
 Section NativeQuiet.
   Variable fx : flags.
   Variable fuel : nat.
 
-  Lemma conv_funcs_quiet : forall t dv fs fs' e l,
-    forallb (fun f => forallb (quietb q_std) (f_nodes f)) fs = true ->
-    conv_funcs (std_adapt fx) fuel t dv fs = (fs', e, l) ->
+  Lemma conv_funcs_quiet : forall s t fs fs' e l,
+    forallb (fun f => forallb (quietb (q_from s)) (f_nodes f)) fs = true ->
+    forallb (fun f => forallb (vergeb s) (f_nodes f)) fs = true ->
+    conv_funcs (std_adapt fx) fuel t (Some s) fs = (fs', e, l) ->
     Forall2 (fun f f' => map strip (f_nodes f') = map strip (f_nodes f)) fs fs'.
   Proof.
-    intros t dv. induction fs as [|f fs IH]; intros fs' e l Hq H; cbn in H.
+    intros s t. induction fs as [|f fs IH]; intros fs' e l Hq Hv H; cbn in H.
     - inversion H. constructor.
-    - cbn [forallb] in Hq. apply andb_true_iff in Hq as [Hf Hfs].
-      pose proof (proj1 (quiet_main (std_adapt fx) q_std (std_quiet fx) t dv fuel) (f_nodes f) Hf) as Hs.
-      destruct (conv (std_adapt fx) t dv fuel (f_nodes f)) as [ns l1|e1 ns l1]; cbn [gout] in Hs.
-      + destruct (conv_funcs (std_adapt fx) fuel t dv fs) as [[rest' e2] l2] eqn:Er.
+    - cbn [forallb] in Hq, Hv. apply andb_true_iff in Hq as [Hf Hfs]. apply andb_true_iff in Hv as [Hvf Hvfs].
+      destruct (proj1 (quiet_main (std_adapt fx) (q_from s) s (std_quiet fx s) t (Some s) (Z.le_refl s) fuel) (f_nodes f) Hf Hvf) as [Hs _].
+      destruct (conv (std_adapt fx) t (Some s) fuel (f_nodes f)) as [ns l1|e1 ns l1]; cbn [gout] in Hs.
+      + destruct (conv_funcs (std_adapt fx) fuel t (Some s) fs) as [[rest' e2] l2] eqn:Er.
         inversion H; subst. constructor; [exact Hs|]. eapply IH; eauto.
       + inversion H; subst. constructor; [exact Hs|].
         clear. induction fs; constructor; auto.
   Qed.
 
   (* the "passes the checker against t" half of the property for the native path: a model whose nodes all
-     belong to operators without an adapter is converted by re-stamping only (same nodes up to versions, main
-     graph and functions, recursively through subgraphs), and every node valid under the schema of opset s
-     is valid under the schema of opset t *)
+     belong to operators without an adapter at any version >= s (so also DFT/GridSample at s >= 20, GroupNormalization
+     at s >= 21) is converted by re-stamping only (same nodes up to versions, main graph and functions, recursively
+     through subgraphs), and every node valid under the schema of opset s is valid under the schema of opset t *)
   Theorem native_unadapted_valid : forall s t M M' l,
     consistent_at s M = true ->
-    forallb (quietb q_std) (m_graph M) = true ->
-    forallb (fun f => forallb (quietb q_std) (f_nodes f)) (m_funcs M) = true ->
+    forallb (quietb (q_from s)) (m_graph M) = true ->
+    forallb (fun f => forallb (quietb (q_from s)) (f_nodes f)) (m_funcs M) = true ->
     convert_native (std_adapt fx) supported_min supported_max fuel M t = MDone M' l ->
     Forall2 (fun n n' => strip n' = strip n) (m_graph M) (m_graph M') /\
     Forall2 (fun f f' => Forall2 (fun n n' => strip n' = strip n) (f_nodes f) (f_nodes f')) (m_funcs M) (m_funcs M') /\
     m_decl M' = Some t /\ t <= supported_max /\
-    (s <= t -> forall n n' info, strip n' = strip n -> q_std (n_op n) = true ->
+    (s <= t -> forall n n' info, strip n' = strip n -> q_from s (n_op n) = true ->
        clear_of schema_exceptions (n_op n) s t = true ->
        valid_at schema_table (n_op n) s (vnode_of n info) = true ->
        valid_at schema_table (n_op n') t (vnode_of n' info) = true).
@@ -100,13 +116,19 @@ Section NativeQuiet.
     intros s t M M' l Hc Hg Hf H. unfold convert_native in H.
     destruct ((t >? supported_max) || (t <? supported_min)) eqn:Er; [discriminate|].
     apply orb_false_iff in Er as [Er _].
-    destruct (default_version M) as [dv|]; [|discriminate].
-    destruct (conv (std_adapt fx) t dv fuel (m_graph M)) as [g l1|e g l1] eqn:Eg; [|discriminate].
-    destruct (conv_funcs (std_adapt fx) fuel t dv (m_funcs M)) as [[fs [e|]] l'] eqn:Ef; [discriminate|].
+    rewrite (default_version_consistent s M Hc) in H.
+    apply consistent_at_inv in Hc as (_ & _ & Hcg & Hcf).
+    destruct (conv (std_adapt fx) t (Some s) fuel (m_graph M)) as [g l1|e g l1] eqn:Eg; [|discriminate].
+    destruct (conv_funcs (std_adapt fx) fuel t (Some s) (m_funcs M)) as [[fs [e|]] l'] eqn:Ef; [discriminate|].
     inversion H; subst. cbn [m_graph m_funcs m_decl].
-    split; [apply map_strip_Forall2; eapply conv_quiet_strip; eauto using std_quiet|].
     split.
-    { eapply Forall2_weaken; [|eapply conv_funcs_quiet; eauto]. intros a b. apply map_strip_Forall2. }
+    { apply map_strip_Forall2.
+      eapply (conv_quiet_strip (std_adapt fx) (q_from s) s (std_quiet fx s) t (Some s) (Z.le_refl s)); eauto.
+      now apply forallb_at_vergeb. }
+    split.
+    { eapply Forall2_weaken; [|eapply conv_funcs_quiet; eauto]. { intros a b. apply map_strip_Forall2. }
+      apply forallb_forall. intros f Hfin. rewrite forallb_forall in Hcf. specialize (Hcf f Hfin).
+      unfold func_at in Hcf. apply andb_true_iff in Hcf as [_ Hn]. now apply forallb_at_vergeb. }
     split; [reflexivity|]. split; [lia|].
     intros Hst n n' info. intros. eapply restamped_valid; eauto.
   Qed.
@@ -115,7 +137,7 @@ End NativeQuiet.
 (* non-vacuity: Cast and If (with a Cast inside) and a function, 18 -> 25 across five schema versions of each *)
 Lemma native_unadapted_example : exists M',
   consistent_at 18 ex_quiet_model = true /\
-  forallb (quietb q_std) (m_graph ex_quiet_model) = true /\
+  forallb (quietb (q_from 18)) (m_graph ex_quiet_model) = true /\
   std_native flags_current ex_quiet_model 25 = MDone M' [] /\
   valid_at schema_table "Cast" 18 (vnode_of cast_node cast_info) = true /\
   valid_at schema_table "If" 18 (vnode_of if_node if_info) = true /\
